@@ -7,7 +7,8 @@ Python index semantics are made explicit: an index expression must be proved to 
 around), a slice bound in [0, len(g)].  Spec (adjoint of the concatenation the primal performs):
      right:  ans = seq ++ elts,  g = gs ++ ge   =>  argnum 0 gets gs (all of it, nothing more), argnum k in 1..m gets ge[k-1]
      left :  ans = elts ++ seq,  g = ge ++ gs   =>  same
-for ALL n, m and k.  The first statement must be the unpacking `<a>, <b> = args[0], args[1:]` (roles seq/elts by position).
+for ALL n, m and k.  The first statement must be the unpacking `<a>, <b> = args[0], args[1:]` (roles seq/elts by position); after it any nest of `if` statements
+over argnum/lengths with `return lambda g: <expr>` leaves is accepted (an if-statement around the lambda and a conditional expression inside it are the same).
 """
 import ast
 import inspect
@@ -32,15 +33,22 @@ def extract(fn):
     if len(params) != 4:
         raise Unsupported(f"signature {params}")
     body = [s for s in tree.body if not (isinstance(s, ast.Expr) and isinstance(s.value, ast.Constant))]
-    if len(body) != 2 or not isinstance(body[0], ast.Assign) or not isinstance(body[1], ast.Return) or not isinstance(body[1].value, ast.Lambda):
-        raise Unsupported("body is not `<seq>, <elts> = args[0], args[1:]; return lambda g: <expr>`")
+    if len(body) < 2 or not isinstance(body[0], ast.Assign):
+        raise Unsupported("body does not start with `<seq>, <elts> = args[0], args[1:]`")
     tgt, val = body[0].targets[0], body[0].value
     ok = (isinstance(tgt, ast.Tuple) and len(tgt.elts) == 2 and isinstance(val, ast.Tuple) and len(val.elts) == 2
           and ast.unparse(val.elts[0]) == f"{params[2]}[0]" and ast.unparse(val.elts[1]) == f"{params[2]}[1:]")
     if not ok:
         raise Unsupported("first statement is not the unpacking of args[0], args[1:]")
-    lam = body[1].value
-    return dict(argnum=params[0], seq=tgt.elts[0].id, elts=tgt.elts[1].id, g=lam.args.args[0].arg, expr=lam.body)
+    # the rest: any nest of `if <condition on argnum/lengths>:` ... whose leaves are `return lambda g: <expr>` (conditional expressions inside the
+    # lambda and if-statements around it are the same thing for the contract)
+    lams = [n for st in body[1:] for n in ast.walk(st) if isinstance(n, ast.Lambda)]
+    if not lams:
+        raise Unsupported("no `return lambda g: <expr>`")
+    gname = lams[0].args.args[0].arg
+    if any(len(l.args.args) != 1 for l in lams):
+        raise Unsupported("the returned function does not take exactly the cotangent")
+    return dict(argnum=params[0], seq=tgt.elts[0].id, elts=tgt.elts[1].id, g=gname, gnames={l.args.args[0].arg for l in lams}, stmts=body[1:])
 
 
 class Tr:
@@ -61,7 +69,7 @@ class Tr:
                 return self.n
             if a == self.names["elts"]:
                 return self.m
-            if a == self.names["g"]:
+            if a in self.names["gnames"]:
                 return self.glen
         if isinstance(e, ast.BinOp) and isinstance(e.op, (ast.Add, ast.Sub)):
             l, r = self.int_(e.left), self.int_(e.right)
@@ -70,16 +78,44 @@ class Tr:
             return -self.int_(e.operand)
         raise Unsupported(f"integer expression {ast.unparse(e)}")
 
+    def test(self, t):
+        if isinstance(t, ast.UnaryOp) and isinstance(t.op, ast.Not):
+            return z3.Not(self.test(t.operand))
+        if isinstance(t, ast.BoolOp):
+            vs = [self.test(v) for v in t.values]
+            return z3.And(*vs) if isinstance(t.op, ast.And) else z3.Or(*vs)
+        if not (isinstance(t, ast.Compare) and len(t.ops) == 1 and isinstance(t.ops[0], (ast.Eq, ast.NotEq, ast.Lt, ast.Gt, ast.LtE, ast.GtE))):
+            raise Unsupported("condition")
+        l, r = self.int_(t.left), self.int_(t.comparators[0])
+        return {ast.Eq: l == r, ast.NotEq: l != r, ast.Lt: l < r, ast.Gt: l > r, ast.LtE: l <= r, ast.GtE: l >= r}[type(t.ops[0])]
+
+    def stmts(self, body, pc):
+        """-> (leaves, fallthrough path conditions).  Leaves as in val()."""
+        leaves, live = [], [list(pc)]
+        for st in body:
+            nxt = []
+            for cur in live:
+                if isinstance(st, ast.Return) and isinstance(st.value, ast.Lambda):
+                    leaves += self.val(st.value.body, cur)
+                elif isinstance(st, ast.If):
+                    c = self.test(st.test)
+                    l1, f1 = self.stmts(st.body, cur + [c])
+                    l2, f2 = self.stmts(st.orelse, cur + [z3.Not(c)])
+                    leaves += l1 + l2
+                    nxt += f1 + f2
+                elif isinstance(st, ast.Pass):
+                    nxt.append(cur)
+                else:
+                    raise Unsupported(f"statement {ast.unparse(st)[:50]}")
+            live = nxt
+        return leaves, live
+
     def val(self, e, pc):
         """returns list of (path condition, kind, payload): kind 'elem' -> z3 Leaf term; 'slice' -> (offset, length)"""
         if isinstance(e, ast.IfExp):
-            t = e.test
-            if not (isinstance(t, ast.Compare) and len(t.ops) == 1 and isinstance(t.ops[0], (ast.Eq, ast.NotEq, ast.Lt, ast.Gt, ast.LtE, ast.GtE))):
-                raise Unsupported("condition")
-            l, r = self.int_(t.left), self.int_(t.comparators[0])
-            c = {ast.Eq: l == r, ast.NotEq: l != r, ast.Lt: l < r, ast.Gt: l > r, ast.LtE: l <= r, ast.GtE: l >= r}[type(t.ops[0])]
+            c = self.test(e.test)
             return self.val(e.body, pc + [c]) + self.val(e.orelse, pc + [z3.Not(c)])
-        if isinstance(e, ast.Subscript) and isinstance(e.value, ast.Name) and e.value.id == self.names["g"]:
+        if isinstance(e, ast.Subscript) and isinstance(e.value, ast.Name) and e.value.id in self.names["gnames"]:
             sl = e.slice
             if isinstance(sl, ast.Slice):
                 if sl.step is not None:
@@ -119,7 +155,12 @@ def run(rep, tier):
                 elt_at = lambda j: z3.Select(ge, j)
             base = [n >= 0, m >= 0, k >= 0, k <= m, gdef]
             tr = Tr(ex, n, m, k, G, glen)
-            leaves = tr.val(ex["expr"], [])
+            leaves, fall = tr.stmts(ex["stmts"], [])
+            if fall:   # a path that returns no function at all (falls off the end): must be infeasible for 0 <= argnum <= m
+                for fpc in fall:
+                    st_, _, _, _ = check_sat(base + fpc, 10000)
+                    if st_ != "unsat":
+                        raise Unsupported("some argnum reaches the end of the rule without a returned function")
         except Unsupported as e:
             rep.obligation(f"{name}:extract", False, "-", 0, "E1a")
             rep.violation(f"{name}:extract", "extract", f"the rule no longer has the shape the unbounded contract is stated for ({e}); the enumerated contract SE-{side} (lengths 0..4) still decides it",
